@@ -18,6 +18,7 @@ import (
 	"github.com/netflix/rend/handlers/inmem"
 	"github.com/netflix/rend/handlers/memcached"
 	"github.com/netflix/rend/handlers/memcached/batched"
+	"github.com/netflix/rend/handlers/memcached/cluster"
 	"github.com/netflix/rend/orcas"
 	"github.com/netflix/rend/protocol"
 	"github.com/netflix/rend/protocol/binprot"
@@ -53,7 +54,7 @@ type StackCfg struct {
 	Orca   string // l1only | l1l2
 	Locked string // none | sr | mr
 	Bits   int
-	L1     string // std | chunked | batched | inmem | panicky (std that panics on request)
+	L1     string // std | chunked | batched | inmem | panicky (std that panics on request) | cluster (one-node clusters at both tiers)
 }
 
 func (c StackCfg) String() string {
@@ -121,8 +122,18 @@ func GetStack(cfg StackCfg) *Stack {
 	}
 	st := &Stack{Cfg: cfg, L1: fakemc.New(), L2: fakemc.New()}
 	l1sock, l2sock := sockPath("l1-"), sockPath("l2-")
-	must(st.L1.Listen(l1sock))
-	must(st.L2.Listen(l2sock))
+	var l1addr, l2addr string
+	if cfg.L1 == "cluster" {
+		// the cluster handler dials TCP: both tiers are one-node clusters
+		var err error
+		l1addr, err = st.L1.ListenTCP()
+		must(err)
+		l2addr, err = st.L2.ListenTCP()
+		must(err)
+	} else {
+		must(st.L1.Listen(l1sock))
+		must(st.L2.Listen(l2sock))
+	}
 
 	protocols := []protocol.Components{binprot.Components, textprot.Components}
 	var o orcas.OrcaConst
@@ -136,6 +147,8 @@ func GetStack(cfg StackCfg) *Stack {
 		h1 = memcached.Batched(l1sock, batched.Opts{BatchSize: 2, BatchDelayMicros: 100})
 	case "panicky":
 		h1 = panickyConst(memcached.Regular(l1sock))
+	case "cluster":
+		h1 = func() (handlers.Handler, error) { return cluster.NewHandler([]string{l1addr}, "verif-l1") }
 	default:
 		h1 = memcached.Regular(l1sock)
 	}
@@ -146,6 +159,11 @@ func GetStack(cfg StackCfg) *Stack {
 	} else {
 		o = orcas.L1Only
 		h2 = handlers.NilHandler
+		if cfg.L1 == "cluster" {
+			// as app/memcached_cluster_proxy.go does: the L1-only orchestrator, a second cluster
+			// handler handed to the server as "L2" (the cluster handler serves set and get only)
+			h2 = func() (handlers.Handler, error) { return cluster.NewHandler([]string{l2addr}, "verif-l2") }
+		}
 	}
 	var lockset uint32
 	locked := cfg.Locked != "none"
